@@ -4,9 +4,10 @@ from .. import rwgen
 from . import c14
 
 ID = "C17"
-MODULES = ["Helios.Props.C17"]
+MODULES = ["Helios.Props.C17", "Helios.Props.Facts"]
 THEOREMS = ["Helios.Http.chain_order", "Helios.Http.chain_order_general", "Helios.Http.reject_stops",
-            "Helios.Http.startup_fail_closed", "Helios.Http.unknown_plugin_fails"]
+            "Helios.Http.startup_fail_closed", "Helios.Http.unknown_plugin_fails",
+            "Helios.Facts.plugins_eq"]
 BUILTINS = ["log", "hdr", "sl.1000.100000", "gz.5.10.text%2F", "auth.k1"]
 
 
